@@ -102,7 +102,13 @@ func checkC07(w *World, r *Report) {
 		constSets := func(f *ssa.Function, callees ...string) (ISet, bool) {
 			var set ISet
 			found := false
-			for _, b := range f.Blocks {
+			var blocks []*ssa.BasicBlock
+			for _, g := range bodiesDeep(f, 2) {
+				if g == f || (g.Pkg == f.Pkg && g.Parent() == nil && nm(g) != "lineNumber") {
+					blocks = append(blocks, g.Blocks...)
+				}
+			}
+			for _, b := range blocks {
 				for _, in := range b.Instrs {
 					c, ok := in.(*ssa.Call)
 					if !ok || c.Call.StaticCallee() == nil || len(c.Call.Args) != 2 {
